@@ -303,7 +303,7 @@ Section DynCanon.
   Hypothesis He : in_kind k e.
   Hypothesis Hse : s < e.
   Hypothesis Hcs : 1 <= cs.
-  Hypothesis Hfit : e - s + cs < 2 ^ 63.
+  Hypothesis Hfit : e - s < 2 ^ 63.
   Hypothesis Hncv : nc = (e - s + cs - 1) / cs.
 
   Lemma nc_bounds : 1 <= nc /\ (nc - 1) * cs < e - s <= nc * cs.
